@@ -731,10 +731,10 @@ class QsModel:
                        f"does not know as live", job=f"{jid!r}#{serial}")
 
     def abstract_state(self):
-        js = tuple(sorted((str(j.jobid), j.channel, j.priority, j.state, _kind(j.error) if j.state == "d" else "",
-                           j.holder or "") for j in self.jobs.values()))
-        ps = tuple(sorted((c, tuple(ch)) for c, ch in self.pulls.items()))
-        ws = tuple(sorted(self.waits))
+        js = tuple(sorted(((repr(j.jobid), j.channel, j.priority, j.state, _kind(j.error) if j.state == "d" else "",
+                            j.holder or "") for j in self.jobs.values()), key=repr))
+        ps = tuple(sorted(((c, tuple(ch)) for c, ch in self.pulls.items()), key=repr))
+        ws = tuple(sorted(self.waits, key=repr))
         return hashlib.blake2b(repr((js, ps, ws)).encode(), digest_size=8).digest()
 
     def unheld(self):
